@@ -134,9 +134,16 @@ Definition ref_run (rq : list rqent) (rm : list ratom) (scope : list bool) : opt
 Definition tr_eqb (a c : Z * nat * list Z * list Z * nat) : bool :=
   let '(n1, d1, p1, m1, s1) := a in let '(n2, d2, p2, m2, s2) := c in
   (n1 =? n2) && Nat.eqb d1 d2 && list_eqb Z.eqb p1 p2 && list_eqb Z.eqb m1 m2 && Nat.eqb s1 s2.
+(* the fuel of the model counts the iterations of the real loop: with n observed iterations (+ the one that finds the stack empty)
+   the model answers, with one less it runs out (C09_*_terminates / _fuel_monotone are about this counter) *)
+Definition fuel_exact (rq : list rqent) (rm : list ratom) (scope : list bool) (n : nat) : bool :=
+  match pyx_search (enc_query rq) (enc_mol rm) scope (S n), mask_search (enc_query rq) (enc_mol rm) scope (S n) with
+  | Some _, Some _ => true | _, _ => false end &&
+  match pyx_search (enc_query rq) (enc_mol rm) scope n, mask_search (enc_query rq) (enc_mol rm) scope n with
+  | None, None => true | _, _ => false end.
 Definition trace_ok (rq : list rqent) (rm : list ratom) (scope : list bool) (obs : list (Z * nat * list Z * list Z * nat)) : bool :=
   match pyx_run (enc_query rq) (enc_mol rm) scope FUEL with
-  | Some (_, tr, cl) => list_eqb tr_eqb tr obs && forallb (Z.eqb 0) cl
+  | Some (_, tr, cl) => list_eqb tr_eqb tr obs && forallb (Z.eqb 0) cl && fuel_exact rq rm scope (List.length obs)
   | None => false
   end.
 Definition pair_ok (rq : list rqent) (rm : list ratom) (scope : list bool) (omask oref : option (list (list (Z * Z)))) (occ al1 al2 : Z) : bool :=
@@ -1162,7 +1169,8 @@ def corr_pairs(ck, rng, mod, lay):
               repr(getattr(mod, 'TRACE_HOOKS', None)))
     okt, ft, logt = coqcases.run_cases('c09_trace', 'PyBase', trace_cases if hook_ok else [], extra=EXTRA, shard=150)
     ck.oblige('correspondence on intermediate states: (popped atom, depth, path, matched flags, stack size) at the top of every iteration of the '
-              'transpiled .pyx loop == the trace of pyx_run, and the closures scratch array is all zero there', okt and not ft and hook_ok,
+              'transpiled .pyx loop == the trace of pyx_run, the closures scratch array is all zero there, and the fuel counter of the model = the '
+              'number of iterations of the real loop (observed n: answer with n + 1, out of fuel with n)', okt and not ft and hook_ok,
               'correspondence', logt or str([trace_meta[i] for i in ft[:5]]))
     ck.extra['trace_cases'] = len(trace_cases)
     ck.extra['trace_iterations_compared'] = n_trace_iter
@@ -1347,6 +1355,9 @@ KNOWN_PROBES = [
     ('query-isotope-offset-raises', '[30C]', 'C', 'query isotope >= 10 above (or > 54 below) mdl_isotope: the encoder raises'),
     ('stack-overflow:stack_index', 'C123C45C16C24C356', 'C123C45C16C24C356', 'stack arrays overflow on dense graphs (K5)'),
     ('stack-overflow:stack_index', 'FS(F)(F)(F)(F)F', 'FS(F)(F)(F)(F)F', 'stack arrays overflow when a star-shaped query re-scans one centre (SF6)'),
+    ('ring-size-above-65', '[C;r66]', 'CCC', 'ring sizes above 65 are dropped by both encoders and "only big rings" is encoded as ring-free: a query for a 66-ring matches chain atoms'),
+    ('ring-size-above-65', '[C;!R]', 'C1' + 'C' * 64 + 'C1', 'ring sizes above 65: the atoms of a 66-membered ring are encoded as ring-free and match !R'),
+    ('ring-size-above-65', '[C;r70]', 'C1CCCC2C1' + 'C' * 68 + '2', 'ring sizes above 65: an atom in a 6- and a 70-ring loses the 70 and no longer matches r70'),
     ('stack-overflow:stack_index', '[A]([A])([A])([A])([A])([A])[A]', 'F%11.F%12.F%13.F%14.F%15.F%16.S%11%12%13%14%15%16', 'stack arrays overflow (star query on SF6, sulfur last)'),
 ]
 
@@ -1462,7 +1473,7 @@ def run(ck):
                         'queries, every component / scope call; non-trivial = at least one mapping. search: public API on corpus molecules.')
     import time
     t0 = time.time()
-    proved = common.standard_proof_steps(ck, translators=['elements', 'isoclosure', 'isoguard'])
+    proved = common.standard_proof_steps(ck, translators=['elements', 'isoclosure', 'isoguard', 'isocand', 'isorefcand', 'isodescend', 'isoyield', 'isoinit'])
     ck.extra['phase_s'] = {'proof': round(time.time() - t0, 1)}
     rng = random.Random(ck.seed * 7919 + 9)
     try:
